@@ -1185,6 +1185,10 @@ func c04UnitTerm(c *Ctx, p *Prog, R string) {
 					}
 					return -1
 				}
+				// every measurement is judged: no step of the loop leaves it
+				if bad == "" && !(o.Term == "exit" && o.Exit == lp.Header) {
+					bad = fmt.Sprintf("on the path %s the loop over the measurements is left before the last one: a result that carries the same unit twice (ns/op and sec/op, MB/s and B/s after normalisation) has its later measurement neither selected nor dropped by the term", truncate(o.AssignStr(), 160))
+				}
 				spec := or(tv(val["Mu"]), and(tv(val["G"]), tv(val["Mo"])))
 				if bad == "" && (spec == -1 || (spec == 1) != sets) {
 					bad = fmt.Sprintf("on the path %s the measurement's bit is set=%v, but 'matches the base unit, or a written unit is present and matches' is %s there: the term must select a measurement by either of its two unit names", truncate(o.AssignStr(), 160), sets, map[int]string{-1: "not determined", 0: "false", 1: "true"}[spec])
